@@ -24,6 +24,8 @@ func C01Cells() []cells.Cell {
 	cs = append(cs, cells.TextCells()...)
 	cs = append(cs, cells.StatusCells()...)
 	cs = append(cs, cells.SecurityCells()...)
+	cs = append(cs, cells.RespSetCells()...)
+	cs = append(cs, cells.RefOrderCells()...)
 	return cs
 }
 
